@@ -22,6 +22,7 @@ type fgen struct {
 	multiPC    bool  // bias leaves towards several constraints (and several quantifiers) in one propertyConstraints map
 	companions bool  // add always-true constraints (minCount 0 / maxCount 9) next to atoms, under the same key
 	viaPaths   bool  // let some atoms constrain a two-step path `ex.l<id> / ex.p<id>` (required for uniqueValues)
+	constants  bool  // let some operands be formulas that cannot fail (a lone minCount 0)
 }
 
 func (g *fgen) newAtom() *m.Atom {
@@ -128,7 +129,24 @@ func (g *fgen) leaf(depth int) *m.F {
 	return f
 }
 
+// trueLeaf is a formula that holds on every node: a propertyConstraints map whose only constraint cannot fail
+// (minCount 0, maxCount 9 over a property nobody has more than four values of). The reference evaluator knows it as
+// a conjunction without conjuncts. Such operands are legitimate ("optional property") and are where a translator
+// that drops what cannot fail meets the connectives around it.
+func (g *fgen) trueLeaf() *m.F {
+	g.budget--
+	prop := fmt.Sprintf("t%d", rapid.IntRange(0, 1).Draw(g.t, "trueProp"))
+	extra := m.ExtraC{Kind: "minCount", Arg: m.YInt(0)}
+	if rapid.IntRange(0, 3).Draw(g.t, "trueKind") == 0 {
+		extra = m.ExtraC{Kind: "maxCount", Arg: m.YInt(9)}
+	}
+	return &m.F{Op: "pc", PC: []m.PCEntry{{Prop: prop, Extra: []m.ExtraC{extra}}}}
+}
+
 func (g *fgen) formula(depth int) *m.F {
+	if depth > 0 && g.constants && rapid.IntRange(0, 11).Draw(g.t, "constantOperand") == 0 {
+		return g.trueLeaf()
+	}
 	if depth >= g.maxDepth || g.budget <= 1 {
 		return g.leaf(depth)
 	}
